@@ -41,6 +41,7 @@ RULE = ("(a) pairs of affine shape expressions c0 + c1*n + c2*m (+ c3*k) with "
         "every valuation in {1..6}^k (36 sizes for two parameters): values "
         "equal NumPy's each time.  non-trivial: (a) forms differ "
         "syntactically; (b,c) >= 2 distinct symbolic axes; distinct by case")
+RULE += '  Round-4 additions to the must-be-refused operations: matrix products whose contracted axes are two different forms, or a symbolic form against the static 1; calls of a FunctionDefinition with an argument whose axis is another form, or that has one axis more or less than the parameter.'
 ASSUMPTIONS = [
     "input values for every size are generated from a fixed integer formula "
     "of the indices (exact arithmetic: results are compared bit for bit "
